@@ -3,7 +3,7 @@
 From Coq Require Import List NArith Bool String.
 Import ListNotations.
 Require Verif.Imports.Collect.
-Require Import Verif.Loc.Model Verif.Loc.LocProps Verif.Loc.OrderProps Verif.Loc.Rules Verif.Gen.LocRules.
+Require Import Verif.Loc.Model Verif.Loc.LocProps Verif.Loc.OrderProps Verif.Loc.EndProps Verif.Loc.Rules Verif.Gen.LocRules.
 Local Open Scope N_scope.
 
 (* ANTLR's counting (lines from 1, one column per code point, tabs and non-ASCII characters included) followed by
@@ -89,7 +89,7 @@ Print Assumptions C08_source_end_fixups.
 
 Theorem C08_source_appenders :
   forallb (fun f => existsb (String.eqb f) appenders)
-          ["EnterName_with_attribs"; "EnterTable"; "EnterField"; "EnterSimple_endpoint"; "EnterMethod_def"]%string = true.
+          ["EnterName_with_attribs"; "EnterTable"; "EnterField"; "EnterSimple_endpoint"; "EnterMethod_def"; "EnterCollector"]%string = true.
 Proof. exact appenders_ok. Qed.
 Print Assumptions C08_source_appenders.
 
@@ -215,3 +215,63 @@ Theorem C08_source_lastend_writers :
   lastend_writers = ["EnterText_stmt"; "getSrcCtxFor"]%string /\ text_end_only_in_nondoc_branch = true.
 Proof. exact lastend_writers_ok. Qed.
 Print Assumptions C08_source_lastend_writers.
+
+
+(* ================= round 3, second pass ================= *)
+
+(* the lastEnd a rule leaves behind is the End of the last context computed inside it (getSrcCtxFor stores the End of every
+   context it hands out), or the lastEnd it was entered with if it computes none: for every text, forest and entry state *)
+Theorem C08_lastend_is_last_call : forall file toks n le,
+  fst (walk file toks n le) = last (map (raw_end toks) (calls n)) le.
+Proof. exact walk_lastend. Qed.
+Print Assumptions C08_lastend_is_last_call.
+
+(* end_lastend: for every text and every declaration forest the k-th context has the kind of the k-th declaration and the
+   End of an application, a type / table and a simple endpoint (End := lastEnd on exit) is EXACTLY the end of the last
+   context computed between the rule's entry and its exit - attributes, own context, body, in handler order
+   (EndProps.inner_calls; fixed_ends lists that end per declaration, parallel to `declarations`) *)
+Theorem C08_loc_end_lastend : forall fs,
+  Forall2 (fun e x => ekind e = fst x /\ (fix_end (ekind e) = true -> snd x = Some (cend (ectx e))))
+          (compile fs) (fixed_ends fs).
+Proof. exact loc_end_lastend. Qed.
+Print Assumptions C08_loc_end_lastend.
+
+Theorem C08_fixed_ends_kinds : forall fs, map fst (fixed_ends fs) = map d_kind (declarations fs).
+Proof. exact fixed_ends_kinds. Qed.
+Print Assumptions C08_fixed_ends_kinds.
+
+(* ... and where that end lies in the text, for all layouts: behind the stop token of that last context (character column
+   + byte length), behind the token that triggered a closing DEDENT + the byte length of the first character of the
+   file, or - the last context being a text statement - at the statement's start column + the byte length of its text *)
+Theorem C08_raw_end_real : forall dl ls c ln col w len,
+  (c_kind c =? kText) = false -> written_at ls (c_last c) = Some (ln, col, R w len) ->
+  raw_end (positions dl ls) c = {| lline := ln; lcol := col + len |}.
+Proof. exact raw_end_real. Qed.
+Print Assumptions C08_raw_end_real.
+
+Theorem C08_raw_end_dedent : forall dl ls c ln col,
+  (c_kind c =? kText) = false -> written_at ls (c_last c) = Some (ln, col, S) ->
+  raw_end (positions dl ls) c = {| lline := ln; lcol := col + trigger_width ls (c_last c) + dl |}.
+Proof. exact raw_end_dedent. Qed.
+Print Assumptions C08_raw_end_dedent.
+
+Theorem C08_raw_end_text : forall dl ls c ln0 col0 w0 len0 ln col w len,
+  (c_kind c =? kText) = true ->
+  written_at ls (c_first c) = Some (ln0, col0, R w0 len0) -> written_at ls (c_last c) = Some (ln, col, R w len) ->
+  raw_end (positions dl ls) c = {| lline := ln; lcol := col0 + c_tlen c |}.
+Proof. exact raw_end_text. Qed.
+Print Assumptions C08_raw_end_text.
+
+(* non-vacuity: EndProps.le_file (an application with a type and an endpoint whose statement carries an attribute): the
+   type ends where its field ends, endpoint and application where the statement's attribute ends; the last call of the
+   endpoint is that attribute (kind 15), a real token pair written at 4:14..4:17 *)
+Example C08_end_lastend_nonvacuous :
+  map fend (compile [le_file]) = fixed_ends [le_file]
+  /\ nth 4 (fixed_ends [le_file]) (0, None) = (kEndpoint, Some {| lline := 4; lcol := 17 |})
+  /\ written_at (f_lines le_file) 27 = Some (4, 15, R 2 2).
+Proof. vm_compute. repeat split; reflexivity. Qed.
+
+(* obligations against the current source, second pass: EnterSubscribe computes its context again behind the attributes *)
+Theorem C08_source_subscribe_reown : own_again_after_attrs = ["EnterSubscribe"]%string.
+Proof. exact subscribe_reown. Qed.
+Print Assumptions C08_source_subscribe_reown.
